@@ -20,18 +20,28 @@ theorem sendStep_nr (env : Env) (o : Out) (fm : FaultMode) (st : St)
     (h : st.status.isRunning = false) : sendStep env o fm st = st := by
   simp [sendStep, h]
 
+theorem iter_nr (f : St → St) (again : St → Bool) (n : Nat) (st : St)
+    (hf : ∀ s : St, s.status.isRunning = false → f s = s) (h : st.status.isRunning = false) :
+    iter f again n st = st := by
+  cases n with
+  | zero => simp [iter, h]
+  | succ n => simp [iter, hf st h, h]
+
 theorem exec_nr (env : Env) (p : Prog) : ∀ st : St, st.status.isRunning = false → exec env p st = st := by
   induction p with
   | nop => intro st _; rfl
   | seq p q ihp ihq => intro st h; simp [exec, ihp st h, ihq st h]
   | send _ _ o fm => intro st h; simp [exec, sendStep_nr env o fm st h]
+  | sendCur _ _ pre fm => intro st h; simp [exec, sendStep_nr env _ fm st h]
+  | assign _ _ _ _ => intro st h; simp [exec, h]
   | collect _ => intro st h; simp [exec, h]
   | setName _ => intro st h; simp [exec, h]
+  | setCur _ => intro st h; simp [exec, h]
   | check _ _ _ _ => intro st h; simp [exec, h]
   | record _ _ _ _ => intro st h; simp [exec, h]
   | crash _ _ => intro st h; simp [exec, h]
-  | ite _ _ t e _ _ => intro st h; simp [exec, h]
-  | early _ _ _ _ _ => intro st h; simp [exec, h]
+  | ite _ t e _ _ => intro st h; simp [exec, h]
+  | early _ _ _ _ => intro st h; simp [exec, h]
   | ifChanges _ _ => intro st h; simp [exec, h]
   | call _ b ih => intro st h; simp [exec, ih st h]
   | defn _ _ _ => intro st _; rfl
@@ -47,6 +57,15 @@ theorem exec_nr (env : Env) (p : Prog) : ∀ st : St, st.status.isRunning = fals
     intro c
     rw [sendStep_nr env _ fm st h]
     exact ih st h
+  | loop _ _ _ _ => intro st h; simp [exec, h]
+  | forIds _ keep b ih =>
+    intro st h
+    simp only [exec]
+    split
+    · apply foldl_fix
+      intro id
+      simp [h]
+    · rfl
 
 theorem exec_nr_status (env : Env) (p : Prog) (st : St) (h : st.status.isRunning = false) :
     (exec env p st).status.isRunning = false := by
@@ -71,6 +90,9 @@ structure StepInv (env : Env) (P : St → Prop) : Prop where
   errU : ∀ st l, P st → P { st with errU := l }
   warn : ∀ st w, P st → P { st with warnings := w }
   retry : ∀ st w, P st → P { st with status := .running, warnings := w }
+  out : ∀ st o, P st → P { st with out := o }
+  lines : ∀ st o, P st → P { st with lines := o }
+  cursor : ∀ st c, P st → P { st with cursor := c }
 
 theorem foldl_inv {α β : Type} (P : β → Prop) (f : β → α → β) (l : List α)
     (h : ∀ b a, P b → P (f b a)) : ∀ b, P b → P (l.foldl f b) := by
@@ -78,12 +100,33 @@ theorem foldl_inv {α β : Type} (P : β → Prop) (f : β → α → β) (l : L
   | nil => intro b hb; exact hb
   | cons a l ih => intro b hb; exact ih _ (h b a hb)
 
+theorem iter_inv (P : St → Prop) (f : St → St) (again : St → Bool)
+    (hf : ∀ s, P s → P (f s)) (hu : ∀ s : St, P s → P { s with status := .unfinished }) :
+    ∀ n st, P st → P (iter f again n st) := by
+  intro n
+  induction n with
+  | zero => intro st h; simp only [iter]; split; exact hu st h; exact h
+  | succ n ih =>
+    intro st h
+    simp only [iter]
+    split
+    · exact ih _ (hf st h)
+    · exact hf st h
+
 theorem exec_inv (env : Env) (P : St → Prop) (hP : StepInv env P) (p : Prog) :
     ∀ st, P st → P (exec env p st) := by
   induction p with
   | nop => intro st h; exact h
   | seq p q ihp ihq => intro st h; exact ihq _ (ihp st h)
   | send _ _ o fm => intro st h; exact hP.send st o fm h
+  | sendCur _ _ pre fm => intro st h; exact hP.send st _ fm h
+  | assign x _ _ e =>
+    intro st h; simp only [exec]
+    split
+    · cases x
+      · exact hP.out st _ h
+      · exact hP.lines st _ h
+    · exact h
   | collect _ =>
     intro st h; simp only [exec]
     split
@@ -92,30 +135,26 @@ theorem exec_inv (env : Env) (P : St → Prop) (hP : StepInv env P) (p : Prog) :
       · exact h
     · exact h
   | setName n => intro st h; simp only [exec]; split; exact hP.setName st n h; exact h
-  | check _ _ _ c =>
+  | setCur f => intro st h; simp only [exec]; split; exact hP.cursor st _ h; exact h
+  | check _ _ _ fl =>
     intro st h; simp only [exec]
     split
-    · split
-      · exact h
-      · exact hP.status st _ h
-      · exact hP.status st _ h
+    · cases fl <;> exact hP.status st _ h
     · exact h
-  | record _ _ m c =>
+  | record _ _ m _ =>
     intro st h; simp only [exec]
     split
-    · split
-      · exact h
-      · exact hP.errU st _ h
+    · cases m <;> exact hP.errU st _ h
     · exact h
   | crash _ _ => intro st h; simp only [exec]; split; exact hP.status st _ h; exact h
-  | ite _ c t e iht ihe =>
+  | ite _ t e iht ihe =>
     intro st h; simp only [exec]
     split
     · split
       · exact iht st h
       · exact ihe st h
     · exact h
-  | early _ _ c r ih =>
+  | early _ _ r ih =>
     intro st h; simp only [exec]
     split
     · split
@@ -155,50 +194,71 @@ theorem exec_inv (env : Env) (P : St → Prop) (hP : StepInv env P) (p : Prog) :
     apply foldl_inv P _ _ _ st h
     intro s c hs
     exact ih _ (hP.send s (.plan c) fm hs)
+  | loop _ b _ ih =>
+    intro st h; simp only [exec]
+    split
+    · exact iter_inv P _ _ ih (fun s hs => hP.status s _ hs) _ st h
+    · exact h
+  | forIds _ keep b ih =>
+    intro st h; simp only [exec]
+    split
+    · apply foldl_inv P _ _ _ st h
+      intro s id hs
+      split
+      · exact ih _ (hP.cursor s id hs)
+      · exact hs
+    · exact h
 
 /-! ## syntactic side conditions -/
 
 /-- every request the program can put on the wire is harmless (no `forPlan`) -/
 def safe (b : Backend) : Prog → Bool
-  | .nop | .collect _ | .setName _ | .check _ _ _ _ | .record _ _ _ _ | .crash _ _
-  | .defn _ _ | .note _ _ | .gate _ | .warnU => true
+  | .nop | .collect _ | .setName _ | .setCur _ | .assign _ _ _ _ | .check _ _ _ _ | .record _ _ _ _
+  | .crash _ _ | .defn _ _ | .note _ _ | .gate _ | .warnU => true
   | .seq p q => safe b p && safe b q
   | .send _ _ o _ => harmless b o
-  | .ite _ _ t e => safe b t && safe b e
-  | .early _ _ _ r => safe b r
+  | .sendCur _ _ pre _ => harmless b (.litArg pre "")
+  | .ite _ t e => safe b t && safe b e
+  | .early _ _ r => safe b r
   | .ifChanges r => safe b r
   | .call _ p => safe b p
   | .block p => safe b p
   | .attempt p e => safe b p && safe b e
   | .forPlan _ _ => false
+  | .loop _ p _ => safe b p
+  | .forIds _ _ p => safe b p
 
 /-- the program never assigns `errUnmanaged` -/
 def noRecord : Prog → Bool
   | .record _ _ _ _ => false
-  | .nop | .collect _ | .setName _ | .check _ _ _ _ | .crash _ _ | .send _ _ _ _
-  | .defn _ _ | .note _ _ | .gate _ | .warnU => true
+  | .nop | .collect _ | .setName _ | .setCur _ | .assign _ _ _ _ | .check _ _ _ _ | .crash _ _
+  | .send _ _ _ _ | .sendCur _ _ _ _ | .defn _ _ | .note _ _ | .gate _ | .warnU => true
   | .seq p q => noRecord p && noRecord q
-  | .ite _ _ t e => noRecord t && noRecord e
-  | .early _ _ _ r => noRecord r
+  | .ite _ t e => noRecord t && noRecord e
+  | .early _ _ r => noRecord r
   | .ifChanges r => noRecord r
   | .call _ p => noRecord p
   | .block p => noRecord p
   | .attempt p e => noRecord p && noRecord e
   | .forPlan _ p => noRecord p
+  | .loop _ p _ => noRecord p
+  | .forIds _ _ p => noRecord p
 
-/-- the program contains no nil dereference -/
+/-- the program contains neither a nil dereference nor an unbounded loop -/
 def noCrash : Prog → Bool
   | .crash _ _ => false
-  | .nop | .collect _ | .setName _ | .check _ _ _ _ | .record _ _ _ _ | .send _ _ _ _
-  | .defn _ _ | .note _ _ | .gate _ | .warnU => true
+  | .loop _ _ _ => false
+  | .nop | .collect _ | .setName _ | .setCur _ | .assign _ _ _ _ | .check _ _ _ _ | .record _ _ _ _
+  | .send _ _ _ _ | .sendCur _ _ _ _ | .defn _ _ | .note _ _ | .gate _ | .warnU => true
   | .seq p q => noCrash p && noCrash q
-  | .ite _ _ t e => noCrash t && noCrash e
-  | .early _ _ _ r => noCrash r
+  | .ite _ t e => noCrash t && noCrash e
+  | .early _ _ r => noCrash r
   | .ifChanges r => noCrash r
   | .call _ p => noCrash p
   | .block p => noCrash p
   | .attempt p e => noCrash p && noCrash e
   | .forPlan _ p => noCrash p
+  | .forIds _ _ p => noCrash p
 
 theorem noChange_append (b : Backend) (tr : List Out) (o : Out) (h : NoChange b tr)
     (ho : harmless b o = true) : NoChange b (tr ++ [o]) := by
@@ -215,6 +275,21 @@ theorem sendStep_trace (env : Env) (o : Out) (fm : FaultMode) (st : St) :
   · right; simp only; split <;> rfl
   · left; rfl
 
+/-- whether a request with a run-time argument is harmless depends on its literal prefix only -/
+theorem harmless_litArg (b : Backend) (p a a' : String) :
+    harmless b (.litArg p a) = harmless b (.litArg p a') := rfl
+
+theorem sendStep_noChange (env : Env) (b : Backend) (o : Out) (fm : FaultMode) (st : St)
+    (ho : harmless b o = true) (h : NoChange b st.trace) : NoChange b (sendStep env o fm st).trace := by
+  cases sendStep_trace env o fm st with
+  | inl e => rw [e]; exact h
+  | inr e => rw [e]; exact noChange_append b _ o h ho
+
+/-- the state transformers that do not touch the trace -/
+theorem noChange_stepInv (env : Env) (b : Backend) :
+    ∀ (f : St → St), (∀ s, (f s).trace = s.trace) → ∀ st, NoChange b st.trace → NoChange b (f st).trace := by
+  intro f hf st h; rw [hf]; exact h
+
 theorem exec_noChange (env : Env) (b : Backend) (p : Prog) :
     safe b p = true → ∀ st, NoChange b st.trace → NoChange b (exec env p st).trace := by
   induction p with
@@ -223,22 +298,28 @@ theorem exec_noChange (env : Env) (b : Backend) (p : Prog) :
     intro hs st h; simp [safe] at hs; exact ihq hs.2 _ (ihp hs.1 st h)
   | send _ _ o fm =>
     intro hs st h; simp [safe] at hs; simp only [exec]
-    cases sendStep_trace env o fm st with
-    | inl e => rw [e]; exact h
-    | inr e => rw [e]; exact noChange_append b _ o h hs
+    exact sendStep_noChange env b o fm st hs h
+  | sendCur _ _ pre fm =>
+    intro hs st h; simp [safe] at hs; simp only [exec]
+    exact sendStep_noChange env b _ fm st (by rw [harmless_litArg b pre _ ""]; exact hs) h
+  | assign x _ _ _ =>
+    intro _ st h; simp only [exec]; split
+    · cases x <;> exact h
+    · exact h
   | collect _ => intro _ st h; simp only [exec]; split; (split <;> exact h); exact h
   | setName _ => intro _ st h; simp only [exec]; split <;> exact h
-  | check _ _ _ _ => intro _ st h; simp only [exec]; split; (split <;> exact h); exact h
-  | record _ _ _ _ => intro _ st h; simp only [exec]; split; (split <;> exact h); exact h
+  | setCur _ => intro _ st h; simp only [exec]; split <;> exact h
+  | check _ _ _ fl => intro _ st h; simp only [exec]; split; (cases fl <;> exact h); exact h
+  | record _ _ m _ => intro _ st h; simp only [exec]; split; (cases m <;> exact h); exact h
   | crash _ _ => intro _ st h; simp only [exec]; split <;> exact h
-  | ite _ _ t e iht ihe =>
+  | ite _ t e iht ihe =>
     intro hs st h; simp [safe] at hs; simp only [exec]
     split
     · split
       · exact iht hs.1 st h
       · exact ihe hs.2 st h
     · exact h
-  | early _ _ _ r ih =>
+  | early _ _ r ih =>
     intro hs st h; simp [safe] at hs; simp only [exec]
     split
     · split
@@ -267,6 +348,20 @@ theorem exec_noChange (env : Env) (b : Backend) (p : Prog) :
   | gate _ => intro _ st h; simp only [exec]; split; (split <;> exact h); exact h
   | warnU => intro _ st h; simp only [exec]; split <;> exact h
   | forPlan _ _ _ => intro hs; simp [safe] at hs
+  | loop _ p _ ih =>
+    intro hs st h; simp [safe] at hs; simp only [exec]
+    split
+    · exact iter_inv (fun s => NoChange b s.trace) _ _ (ih hs) (fun s hs' => hs') _ st h
+    · exact h
+  | forIds _ keep p ih =>
+    intro hs st h; simp [safe] at hs; simp only [exec]
+    split
+    · apply foldl_inv (fun s => NoChange b s.trace) _ _ _ st h
+      intro s id hs'
+      split
+      · exact ih hs _ hs'
+      · exact hs'
+    · exact h
 
 theorem sendStep_errU (env : Env) (o : Out) (fm : FaultMode) (st : St) :
     (sendStep env o fm st).errU = st.errU := by
@@ -282,21 +377,26 @@ theorem exec_errU (env : Env) (p : Prog) :
   | nop => intro _ st; rfl
   | seq p q ihp ihq =>
     intro hs st; simp [noRecord] at hs; simp only [exec]; rw [ihq hs.2, ihp hs.1]
-  | send _ _ o fm =>
-    intro _ st; simp only [exec]; exact sendStep_errU env o fm st
+  | send _ _ o fm => intro _ st; simp only [exec]; exact sendStep_errU env o fm st
+  | sendCur _ _ pre fm => intro _ st; simp only [exec]; exact sendStep_errU env _ fm st
+  | assign x _ _ _ =>
+    intro _ st; simp only [exec]; split
+    · cases x <;> rfl
+    · rfl
   | collect _ => intro _ st; simp only [exec]; split; (split <;> rfl); rfl
   | setName _ => intro _ st; simp only [exec]; split <;> rfl
-  | check _ _ _ _ => intro _ st; simp only [exec]; split; (split <;> rfl); rfl
+  | setCur _ => intro _ st; simp only [exec]; split <;> rfl
+  | check _ _ _ fl => intro _ st; simp only [exec]; split; (cases fl <;> rfl); rfl
   | record _ _ _ _ => intro hs; simp [noRecord] at hs
   | crash _ _ => intro _ st; simp only [exec]; split <;> rfl
-  | ite _ _ t e iht ihe =>
+  | ite _ t e iht ihe =>
     intro hs st; simp [noRecord] at hs; simp only [exec]
     split
     · split
       · exact iht hs.1 st
       · exact ihe hs.2 st
     · rfl
-  | early _ _ _ r ih =>
+  | early _ _ r ih =>
     intro hs st; simp [noRecord] at hs; simp only [exec]
     split
     · split
@@ -336,8 +436,28 @@ theorem exec_errU (env : Env) (p : Prog) :
         rw [ihl, ih hs]
         exact sendStep_errU env _ fm s
     exact this _ st
+  | loop _ p _ ih =>
+    intro hs st; simp [noRecord] at hs; simp only [exec]
+    split
+    · exact iter_inv (fun s => s.errU = st.errU) _ _ (fun s hs' => by rw [ih hs]; exact hs')
+        (fun s hs' => hs') _ st rfl
+    · rfl
+  | forIds _ keep p ih =>
+    intro hs st; simp [noRecord] at hs; simp only [exec]
+    split
+    · apply foldl_inv (fun s => s.errU = st.errU) _ _ _ st rfl
+      intro s id hs'
+      split
+      · rw [ih hs]; exact hs'
+      · exact hs'
+    · rfl
 
-def notPanicked (st : St) : Prop := ∀ m, st.status ≠ .panicked m
+/-- the run did not end in a Go panic and is not stuck in an unbounded loop -/
+def notPanicked (st : St) : Prop := (∀ m, st.status ≠ .panicked m) ∧ st.status ≠ .unfinished
+
+theorem notPanicked_of_status {st st' : St} (h : st'.status = st.status) (hp : notPanicked st) :
+    notPanicked st' := by
+  unfold notPanicked; rw [h]; exact hp
 
 theorem sendStep_noPanic (env : Env) (o : Out) (fm : FaultMode) (st : St) (h : notPanicked st) :
     notPanicked (sendStep env o fm st) := by
@@ -345,42 +465,42 @@ theorem sendStep_noPanic (env : Env) (o : Out) (fm : FaultMode) (st : St) (h : n
   split
   · dsimp only
     split
-    · intro m; simp only [faultStatus]
-      cases fm
-      · simp
-      · simp
-      · simp
+    · refine ⟨?_, ?_⟩
+      · intro m; simp only [faultStatus]; cases fm <;> simp
+      · simp only [faultStatus]; cases fm <;> simp
     · exact h
   · exact h
 
-/-- Without a `crash` node the run never ends in a Go panic. -/
+/-- Without a `crash` or `loop` node the run never ends in a Go panic or unfinished. -/
 theorem exec_noPanic (env : Env) (p : Prog) :
     noCrash p = true → ∀ st, notPanicked st → notPanicked (exec env p st) := by
   induction p with
   | nop => intro _ st h; exact h
   | seq p q ihp ihq => intro hs st h; simp [noCrash] at hs; exact ihq hs.2 _ (ihp hs.1 st h)
-  | send _ _ o fm =>
-    intro _ st h; simp only [exec]; exact sendStep_noPanic env o fm st h
+  | send _ _ o fm => intro _ st h; simp only [exec]; exact sendStep_noPanic env o fm st h
+  | sendCur _ _ pre fm => intro _ st h; simp only [exec]; exact sendStep_noPanic env _ fm st h
+  | assign x _ _ _ =>
+    intro _ st h; simp only [exec]; split
+    · cases x <;> exact h
+    · exact h
   | collect _ => intro _ st h; simp only [exec]; split; (split <;> exact h); exact h
   | setName _ => intro _ st h; simp only [exec]; split <;> exact h
-  | check _ _ _ _ =>
+  | setCur _ => intro _ st h; simp only [exec]; split <;> exact h
+  | check _ _ _ fl =>
     intro _ st h; simp only [exec]
     split
-    · split
-      · exact h
-      · intro m; simp
-      · intro m; simp
+    · cases fl <;> exact ⟨fun m => by simp, by simp⟩
     · exact h
-  | record _ _ _ _ => intro _ st h; simp only [exec]; split; (split <;> exact h); exact h
+  | record _ _ m _ => intro _ st h; simp only [exec]; split; (cases m <;> exact h); exact h
   | crash _ _ => intro hs; simp [noCrash] at hs
-  | ite _ _ t e iht ihe =>
+  | ite _ t e iht ihe =>
     intro hs st h; simp [noCrash] at hs; simp only [exec]
     split
     · split
       · exact iht hs.1 st h
       · exact ihe hs.2 st h
     · exact h
-  | early _ _ _ r ih =>
+  | early _ _ r ih =>
     intro hs st h; simp [noCrash] at hs; simp only [exec]
     split
     · split
@@ -404,7 +524,7 @@ theorem exec_noPanic (env : Env) (p : Prog) :
     · have h1 := ihp hs.1 st h
       split
       · apply ihe hs.2
-        intro m; simp
+        exact ⟨fun m => by simp, by simp⟩
       · exact h1
     · exact h
   | gate _ =>
@@ -412,7 +532,7 @@ theorem exec_noPanic (env : Env) (p : Prog) :
     split
     · split
       · exact h
-      · intro m; simp
+      · exact ⟨fun m => by simp, by simp⟩
     · exact h
   | warnU => intro _ st h; simp only [exec]; split <;> exact h
   | forPlan fm p ih =>
@@ -421,5 +541,15 @@ theorem exec_noPanic (env : Env) (p : Prog) :
     intro s c hs'
     apply ih hs
     exact sendStep_noPanic env _ fm s hs'
+  | loop _ _ _ _ => intro hs; simp [noCrash] at hs
+  | forIds _ keep p ih =>
+    intro hs st h; simp [noCrash] at hs; simp only [exec]
+    split
+    · apply foldl_inv notPanicked _ _ _ st h
+      intro s id hs'
+      split
+      · exact ih hs _ hs'
+      · exact hs'
+    · exact h
 
 end NA.Gate
